@@ -237,4 +237,5 @@ def replay(rep, wd, payload):
         if got != stream_of(f)[lo:hi]:
             rep.violation(payload['key'], p)
     else:
-        print('re-run the full check with VERIF_SEED=%s to reproduce' % payload.get('seed'))
+        import sys
+        core.generic_replay(sys.modules[__name__], rep, wd, payload)
